@@ -115,6 +115,7 @@ class Evaluator:
         self.effects = []
         self._yields = []
         self.unknown_attrs = set()
+        self.symbolic = set()        # names of package functions kept symbolic: ("call", name, args, kwargs) instead of inlining
         self.visited = set()         # functions entered by the evaluation
         self.files = {}              # abstract file system: frozen path -> list of written values
         self.opens = []              # (frozen path, mode) in order
@@ -607,6 +608,8 @@ class Evaluator:
                     env[recv_name].extend(args[0])
                 return None
         cs = self.ctx.r.site_of.get(id(e))
+        if cs is not None and cs.targets and cs.kind in ("func", "self", "static", "typed") and any(t.name in self.symbolic for t in cs.targets):
+            return ("call", cs.targets[0].name, tuple(freeze(a) for a in args), tuple(sorted((k, freeze(v)) for k, v in kws.items())))
         if cs is not None and cs.targets and cs.kind in ("func", "self", "static", "typed"):
             if len(cs.targets) != 1:
                 raise AnalysisError("table extractor: call %s has several targets" % ast.unparse(e)[:50])
